@@ -166,6 +166,7 @@ func init() {
 		Technique: "property-based testing (rapid) with a position-tracking printer as oracle; exhaustive truncation at every byte offset and error injection at every token boundary of generated templates",
 		Rule: "model programs printed under spellings that put newlines, tabs and CRLF anywhere the spelling allows (text, string literals, comments, between tokens of multi-line tags), with multi-byte characters: (p) positions of every node of the parsed tree against the printer's line / byte column of each anchor token (first byte of a text run, of '{{', of a tag's name, of a literal or name, of the name of a called function or applied filter, of the first word of a test; for strings the quote or the first content byte); " +
 			"(t) every byte offset of every generated template as truncation point - inside a delimiter pair or an open body-carrying construct Parse must return an error; (i) at every token boundary of every tag: an unknown tag name, an illegal character (! $ @ `) or a surplus number literal before the closing delimiter - Parse must return an error located at that token; " +
+			"(m) marker templates assembled from fragments with line breaks in text, comments, strings, interpolations, verbatim sections and tags: every name mk<k>z and number 9<kk> occurs once and its node must report the line / byte column where it is found (inside interpolations too), an unknown tag appended must be reported at its name; " +
 			"(n) a broken template loaded by name through memory and filesystem loaders, directly and via include / extends / import - the error identifies the template. " +
 			"Non-trivial: (p) the template spans >= 2 lines; (t)/(i) the fault lies on a line > 1 or inside a nested construct; distinct by (source, fault).",
 		Assumptions: []string{"the printer (model.Join) is the position oracle: it knows the byte offset, line and column of every token it emits", "string interpolation and verbatim sections are not used in position checks (their inner positions are not anchored by the statement)"},
